@@ -43,6 +43,7 @@ type edgeState struct {
 type Exec struct {
 	c                 *Ctx
 	fn                *ssa.Function
+	loopHeadNames     map[string]Val
 	con               *Contract
 	env               map[ssa.Value]Val
 	edges             map[*ssa.BasicBlock]map[*ssa.BasicBlock]State // from -> to -> state
@@ -579,6 +580,12 @@ func (e *Exec) enterLoop(li *loopInfo, st State) State {
 		c.fact(c.allocFact(heap, v))
 		e.env[phi] = v
 		li.phiVals[phi] = v
+		if phi.Comment != "" && phi.Comment != "rangeindex" && phi.Comment != "rangeiter" {
+			if e.loopHeadNames == nil {
+				e.loopHeadNames = map[string]Val{}
+			}
+			e.loopHeadNames[phi.Comment] = v // for ghost code inside the body: the variable's value at the loop head of this iteration
+		}
 	}
 	// call-log counters never decrease below zero
 	var tnames []string
